@@ -74,6 +74,11 @@ func loadProg(repo string, patterns []string, tags string) (*Prog, error) {
 	}
 	p.Pkgs = pkgs
 	p.Fset = pkgs[0].Fset
+	packages.Visit(pkgs, nil, func(pk *packages.Package) {
+		if _, ok := p.ByPath[pk.PkgPath]; !ok {
+			p.ByPath[pk.PkgPath] = pk
+		}
+	})
 	for _, pk := range pkgs {
 		p.ByPath[pk.PkgPath] = pk
 		for _, f := range pk.Syntax {
